@@ -176,16 +176,20 @@ Theorem kvarn_cache_control_checked_refuted :
   CacheControl.from_kvarn_cache_control true (B "4294967295d") = Panic.
 Proof. vm_compute. reflexivity. Qed.
 
-(** ** The request path: reader -> host choice -> sanitize -> CORS origin test -> cache key -> file path ->
-    query parsing -> negotiation -> cache -> range -> send, for every head, every read schedule and end
-    mode, every host collection the builder accepts, every page that fits in memory, every state of the
+(** ** The request path, in the code's order: reader (head, body) -> host choice (409) -> request limiter (drop, 429) ->
+    sanitize (path: 400; range with start > end: 416, before any Prime result counts) -> CORS gate (403, preflight 204; the
+    range stage of send applies to its pages)
+    -> cache key -> file path -> query parsing -> negotiation -> cache -> range -> send; for every head, every read
+    schedule and end mode, every host collection the builder accepts, every limiter configuration and every history
+    of earlier registrations on it (within usize::MAX / 3 calls), every page that fits in memory, every state of the
     response cache that is absent or holds this page, both arithmetic modes. *)
 Theorem request_path_never_panics :
   forall (grow : nat -> nat -> nat -> nat) (parse_q : bytes -> option Negotiate.qclass) (checked : bool) (mode : N) (https : bool)
-    (ops : list Hosts.op) (c : Hosts.collection) (dh : option bytes) (max_len : nat) (limit : N) (public : bytes)
+    (ops : list Hosts.op) (c : Hosts.collection) (dh : option bytes) (max_len : nat) (limit : N)
+    (lcfg : Limiter.config) (t0 : N) (lh : list Limiter.event) (addr now : N) (public : bytes)
     (cors_default_deny caching : bool) (pg : RangeConn.page) (cache : option RangeConn.page) (stream : bytes) (sched : list nat),
-  Hosts.build ops = Ok c -> RangeConn.page_fits pg -> RangeConn.cache_ok pg cache ->
-  request_path grow parse_q checked mode https c dh max_len limit public cors_default_deny caching pg cache stream sched <> Panic.
+  Hosts.build ops = Ok c -> Limiter.fits (S (length lh)) -> RangeConn.page_fits pg -> RangeConn.cache_ok pg cache ->
+  request_path grow parse_q checked mode https c dh max_len limit lcfg t0 lh addr now public cors_default_deny caching pg cache stream sched <> Panic.
 Proof. exact request_path_no_panic. Qed.
 
 (** ** Non-vacuity *)
@@ -206,7 +210,7 @@ Proof. repeat constructor; vm_compute; discriminate. Qed.
 (** A ranged request with a query string, delivered in three segments, reaches the last stage. *)
 Example ex_request_path_reply :
   match request_path Http1Read.vec_grow Negotiate.parse_q_dec true 0 false ex_coll (Some (B "localhost")) (N.to_nat 16384) 65536
-          (B "public") true true ex_page None
+          (Limiter.disable Limiter.default_config) 0 [] 1 0 (B "public") true true ex_page None
           (B "GET /a?x=1&y=2&x=3 HTTP/1.1" ++ [13; 10] ++ B "Host: b.example" ++ [13; 10] ++ B "Range: bytes=2-5" ++ [13; 10]
              ++ B "Accept-Encoding: gzip" ++ [13; 10; 13; 10]) [5; 40; 100]%nat with
   | Ok (PReply (RangeConn.WResp w) (Some _) qs (Some fs)) =>
@@ -219,7 +223,7 @@ Proof. vm_compute. repeat split. Qed.
 Example ex_bare_lf : Http1Read.parse_headers (B "A: " ++ [10; 13; 10]) = Ok ([(B "a", [])], 6%nat).
 Proof. vm_compute. reflexivity. Qed.
 Example ex_range_max :
-  match request_path Http1Read.vec_grow Negotiate.parse_q_dec true 0 false ex_coll (Some (B "localhost")) (N.to_nat 16384) 65536 (B "public") true false ex_page None
+  match request_path Http1Read.vec_grow Negotiate.parse_q_dec true 0 false ex_coll (Some (B "localhost")) (N.to_nat 16384) 65536 (Limiter.disable Limiter.default_config) 0 [] 1 0 (B "public") true false ex_page None
           (B "GET / HTTP/1.1" ++ [13; 10] ++ B "Range: bytes=0-18446744073709551615" ++ [13; 10; 13; 10]) [1000]%nat with
   | Ok (PReply (RangeConn.WResp w) _ _ _) => RangeConn.w_status w = 206 /\ RangeConn.w_content_range w = Some (B "bytes 0-9/10")
   | _ => False
@@ -227,13 +231,40 @@ Example ex_range_max :
 Proof. vm_compute. repeat split. Qed.
 (** Unsafe path, unknown host without default, a head cut off by EOF. *)
 Example ex_unsafe :
-  request_path Http1Read.vec_grow Negotiate.parse_q_dec true 0 false ex_coll (Some (B "localhost")) (N.to_nat 16384) 65536 (B "public") true false ex_page None
+  request_path Http1Read.vec_grow Negotiate.parse_q_dec true 0 false ex_coll (Some (B "localhost")) (N.to_nat 16384) 65536 (Limiter.disable Limiter.default_config) 0 [] 1 0 (B "public") true false ex_page None
     (B "GET /../x HTTP/1.1" ++ [13; 10; 13; 10]) [1000]%nat = Ok P400.
 Proof. vm_compute. reflexivity. Qed.
 Example ex_closed :
-  request_path Http1Read.vec_grow Negotiate.parse_q_dec true 0 false ex_coll None (N.to_nat 16384) 65536 (B "public") true false ex_page None
+  request_path Http1Read.vec_grow Negotiate.parse_q_dec true 0 false ex_coll None (N.to_nat 16384) 65536 (Limiter.disable Limiter.default_config) 0 [] 1 0 (B "public") true false ex_page None
     (B "GET / HTTP/1.1") [1000]%nat = Ok (PClosed Http1Read.E_UNEXPECTED_END).
 Proof. vm_compute. reflexivity. Qed.
+(** The order of the stages: an unsafe path wins over a foreign Origin (400), a refused range too (416); a foreign Origin is
+    403, also for a preflight; a same-origin preflight is answered 204 by the default gate; a limiter that allows one
+    request per window answers the second 429 and drops the fifth. *)
+Definition ex_head (lines : list bytes) : bytes := concat (map (fun l => l ++ [13; 10]) lines) ++ [13; 10].
+Definition ex_path (lcfg : Limiter.config) (lh : list Limiter.event) (lines : list bytes) : outcome path_result :=
+  request_path Http1Read.vec_grow Negotiate.parse_q_dec true 0 false ex_coll (Some (B "localhost")) (N.to_nat 16384) 65536
+    lcfg 0 lh 1 5 (B "public") true false ex_page None (ex_head lines) [1000]%nat.
+Definition ex_status (o : outcome path_result) : option N :=
+  match o with
+  | Ok (PGate Range.R416) => Some 416
+  | Ok (PGate (Range.RResp r)) => Some (Range.r_status r)
+  | _ => None
+  end.
+Definition ex_lim : Limiter.config := {| Limiter.max_requests := 1; Limiter.check_every := 1; Limiter.reset_after := Some 300 |}.
+Example ex_order :
+  ex_path (Limiter.disable Limiter.default_config) [] [B "GET /../x HTTP/1.1"; B "Origin: http://evil"] = Ok P400 /\
+  (match ex_path (Limiter.disable Limiter.default_config) [] [B "GET /x HTTP/1.1"; B "Origin: http://evil"; B "Range: bytes=5-2"] with
+   | Ok (PReply RangeConn.W416 _ _ _) => True | _ => False end) /\
+  ex_status (ex_path (Limiter.disable Limiter.default_config) [] [B "GET /x HTTP/1.1"; B "Origin: http://evil"]) = Some 403 /\
+  ex_status (ex_path (Limiter.disable Limiter.default_config) [] [B "OPTIONS /x HTTP/1.1"; B "Origin: http://evil"; B "Access-Control-Request-Method: PUT"]) = Some 403 /\
+  ex_status (ex_path (Limiter.disable Limiter.default_config) [] [B "OPTIONS /x HTTP/1.1"; B "Origin: http://localhost"; B "Access-Control-Request-Method: PUT"]) = Some 204 /\
+  (* the range stage of send applies to the gate's pages too: 19 bytes of denial, an empty preflight answer *)
+  ex_status (ex_path (Limiter.disable Limiter.default_config) [] [B "GET /x HTTP/1.1"; B "Origin: http://evil"; B "Range: bytes=19-30"]) = Some 416 /\
+  ex_status (ex_path (Limiter.disable Limiter.default_config) [] [B "GET /x HTTP/1.1"; B "Origin: http://evil"; B "Range: bytes=18-30"]) = Some 403 /\
+  ex_path ex_lim [(1, 1)] [B "GET /x HTTP/1.1"] = Ok P429 /\
+  ex_path ex_lim [(1, 1); (1, 2); (1, 3); (1, 4)] [B "GET /x HTTP/1.1"] = Ok PDropped.
+Proof. vm_compute. repeat split. Qed.
 Example ex_get_last : query_script false (B "a=1&b=2&a=3") (B "a") [true; false; false] = Ok [Some (B "3"); Some (B "1"); None].
 Proof. vm_compute. reflexivity. Qed.
 (** A date in the past: the page; the same date a few hundred years on: not modified; a day that does not exist,
